@@ -503,6 +503,11 @@ def gen_expr(rng, depth, feat, regex_ok):
     for _ in range(k):
         t, o, _c = gen_expr(rng, depth - 1, feat, regex_ok)
         neg = rng.random() < 0.2
+        r = rng.random()
+        if r < 0.08:            # redundant parentheses (accepted since the fix of F56)
+            t = "(" + t + ")"
+        elif r < 0.14:
+            t, o = "!(" + t + ")", o + ["f~:0:1"]
         parts.append(("!" if neg else "") + "(" + rng.choice(["", " "]) + t + rng.choice(["", " "]) + ")")
         ops += o + (["f~:0:1"] if neg else [])
     sep = " " + conj + " "
@@ -531,8 +536,13 @@ def gen_expr_case(rng, feat, regex_ok=False):
                     v = val(rng, t)
                 ops.append("a:%d:%s:%s:%s" % (r, sx(name), t, v))
     txt, fops, _c = gen_expr(rng, rng.choice([0, 0, 1, 1, 2]), feat, regex_ok)
-    if rng.random() < 0.1:
+    r = rng.random()
+    if r < 0.1:
         txt = "(" + txt + ")"
+    elif r < 0.15:
+        txt = "((" + txt + "))"
+    elif r < 0.2:
+        txt, fops = "(!(" + txt + "))", fops + ["f~:0:1"]
     return "X|" + ";".join(ops + fops + ["e:" + sx(txt)])
 
 
@@ -601,7 +611,11 @@ class CHECK(vlib.Check):
     premises = ["memory safety of the C++ (observed under ASan/UBSan in the harness only); recursion depth of nested archives (F5)",
                 "StringMatcher-backed string operators (wildcard / regex match) are a Section variable [smatch] of the evaluator: every theorem holds for any such function; the correspondence run instantiates it with property C15's StringMatcher model over its ERE engine",
                 "libc atof (strtod) and the double->float conversion are Section variables of the expression-parser model (instantiated with OCaml's in the driver)",
-                "domain: Strings NUL-free; a held ByteBuffer is non-empty; MultiQueryFilter children non-NULL; operand members within their C++ types (wf_filter)"]
+                "domain: Strings NUL-free; a held ByteBuffer is non-empty; MultiQueryFilter children non-NULL; operand members within their C++ types (wf_filter)",
+                "non-claim: a NULL child reference placed in a MultiQueryFilter through GetChildren() is tolerated by Matches() but dropped by SaveToArchive "
+                "(And(NULL, x) decides 0, its restored copy decides x): outside the documented use, not represented in the model",
+                "non-claim: a RawDataQueryFilter aimed at a sub-Message (or pointer) field compares the bytes of the MessageRef object (pointer bits): "
+                "outside the documented use, the model answers false, generators never aim a raw filter at such a field"]
     rule = ("a case builds 8 Messages and a filter (constructors/setters; the archive factory on a hostile or deeply nested Message; or "
             "CreateQueryFilterFromExpression, with the tree the documented grammar denotes built next to it); the filter is evaluated on all "
             "8 Messages directly, archived, sent through Flatten/Unflatten, restored and evaluated again; every line (tree read from the objects' "
